@@ -37,6 +37,7 @@ class Check(BaseCheck):
         extract.gen_fem()
         extract.gen_diffgeo()
         extract.gen_poisson()
+        extract.gen_geo_glue()
 
     def problems(self, seed, n_tri, n_tet):
         rng = gen.rng_for(seed, "c08")
@@ -56,6 +57,9 @@ class Check(BaseCheck):
                 f = 2.0 * np.exp(-np.sum((v - p1) ** 2, axis=1) / (0.05 * ext ** 2)) + np.exp(-np.sum((v - p2) ** 2, axis=1) / (0.6 * ext ** 2)) + 0.01 * (v @ a)
             affine = bool(np.allclose(f, v @ a + (f[0] - v[0] @ a)))
             fs = float(rng.choice([1.0, 1.0, 1e-9, 1e6]))       # the normalised gradient does not depend on the magnitude of f
+            # ... nor on an additive constant: largest value exactly 0, smallest value exactly 0, values of one sign
+            off = str(rng.choice(["as-drawn", "as-drawn", "max=0", "min=0", "negative"]))
+            f = {"as-drawn": f, "max=0": f - f.max(), "min=0": f - f.min(), "negative": f - f.max() - 0.37 * np.ptp(f)}[off]
             yield dict(kind="tri", v=v, t=t, f=fs * f, a=a, affine=affine, flat=flat, name=c["name"], fscale=fs, pres=c.get("pres"), vdtype=c.get("vdtype"))
         for c in gen.tet_stream(seed + 112, n_tet, "small"):
             v, t = c["v"], c["t"]
@@ -63,7 +67,9 @@ class Check(BaseCheck):
                 continue
             a = rng.normal(size=3)
             fs = float(rng.choice([1.0, 1.0, 1e-9, 1e6]))
-            yield dict(kind="tet", v=v, t=t, f=fs * (v @ a + rng.normal()), a=a, affine=True, flat=True, name=c["name"], fscale=fs, pres=c.get("pres"), vdtype=c.get("vdtype"))
+            ft = v @ a + rng.normal()
+            ft = [ft, ft - ft.max(), ft - ft.min()][int(rng.integers(0, 3))]
+            yield dict(kind="tet", v=v, t=t, f=fs * ft, a=a, affine=True, flat=True, name=c["name"], fscale=fs, pres=c.get("pres"), vdtype=c.get("vdtype"))
 
     def correspond(self, drv, stats):
         fails = []
